@@ -147,6 +147,66 @@ type c16Arg struct {
 	x    any
 }
 
+// c16SharePrefix: when both operands are texts and the content of one is a proper, non-empty prefix of the other's, the
+// shorter one is rebuilt as a view of the longer one's memory (b[:n], s[:n]): DeepEqual must not take shared storage - the
+// same first byte - for equality.  Representation (string / []byte) and form (value / pointer) stay what the case says.
+func c16SharePrefix(l, r *c16Arg) {
+	content := func(x any) (string, bool) {
+		switch v := x.(type) {
+		case string:
+			return v, true
+		case *string:
+			if v != nil {
+				return *v, true
+			}
+		case []byte:
+			return string(v), true
+		case *[]byte:
+			if v != nil {
+				return string(*v), true
+			}
+		}
+		return "", false
+	}
+	cl, okl := content(l.x)
+	cr, okr := content(r.x)
+	if !okl || !okr || len(cl) == len(cr) || len(cl) == 0 || len(cr) == 0 {
+		return
+	}
+	short, long := l, r
+	cs, cg := cl, cr
+	if len(cl) > len(cr) {
+		short, long, cs, cg = r, l, cr, cl
+	}
+	if !strings.HasPrefix(cg, cs) {
+		return
+	}
+	// the long operand's bytes, wherever they live
+	var mem []byte
+	switch v := long.x.(type) {
+	case string:
+		mem = unsafe.Slice(unsafe.StringData(v), len(v))
+	case *string:
+		mem = unsafe.Slice(unsafe.StringData(*v), len(*v))
+	case []byte:
+		mem = v
+	case *[]byte:
+		mem = *v
+	}
+	view := mem[:len(cs):len(cs)]
+	switch short.x.(type) {
+	case string:
+		short.x = unsafe.String(&view[0], len(view))
+	case *string:
+		sv := unsafe.String(&view[0], len(view))
+		short.x = &sv
+	case []byte:
+		short.x = view
+	case *[]byte:
+		short.x = &view
+	}
+}
+
 func c16Other(tag string) any {
 	switch tag {
 	case "0":
@@ -529,6 +589,7 @@ func c16Call(req string) string {
 		return out
 	case "deq1":
 		l, r := c16Build(f[1]), c16Build(f[2])
+		c16SharePrefix(&l, &r)
 		return f01(ins.DeepEqual(l.x, r.x))
 	case "copy":
 		a := c16Build(f[1])
